@@ -9,6 +9,8 @@ from gen.nets import (CODES, NETS, PFX, GRS, KINDS, NET_KIND, HRPS, ALL_B58_PREF
 from oracles import refenc, refaddr
 from vlib.core import SubCheck, Violation
 
+from gen import subproc
+
 PROPERTY = "C08"
 ASSUMPTIONS = [
     "oracles/refenc.py Base58Check / Bech32 / Bech32m and oracles/refaddr.py byte-level script templates, hash160, "
@@ -643,12 +645,18 @@ SUBCHECKS = [
              nontrivial=lambda c, l: "prefix-matches" in l,
              rule="checksummed strings with the network's own prefixes (address, p2sh, wif, bip32..), other networks' prefixes, truncated "
                   "and random prefixes, payload length 0..40 weighted to 19/20/21"),
+    SubCheck("accept_b58_python_O", subproc.optimized_variant("checks.c08_addresses", "o_accept_b58"), strategy=s_accept_b58, budget=(600, 20000),
+             rule="the accept_b58_generated cases evaluated in a child interpreter started with PYTHONOPTIMIZE=1 (python -O: assert statements are "
+                  "compiled away, so validation written as an assert vanishes; the child asserts that mode)"),
     SubCheck("accept_bech32_grid", o_accept_bech32, cases=cases_accept_bech32_grid, exhaustive=True,
              rule="every network with an HRP x witness version 0..16 x program length 2..40 x Bech32 and Bech32m checksum: accepted => "
                   "(v0,20|32,Bech32) or (v1,32,Bech32m), script OP_n push, re-encoding identical; those three forms must be accepted"),
     SubCheck("accept_bech32_generated", o_accept_bech32, strategy=s_accept_bech32, budget=(6000, 150000),
              nontrivial=lambda c, l: "hrp-own" in l or "accepted" in l,
              rule="own / foreign / near-miss HRPs, versions 0..17, lengths 0..41, both constants, upper case; on networks with and without an HRP"),
+    SubCheck("accept_bech32_python_O", subproc.optimized_variant("checks.c08_addresses", "o_accept_bech32"), strategy=s_accept_bech32, budget=(600, 20000),
+             rule="the accept_bech32_generated cases evaluated in a child interpreter started with PYTHONOPTIMIZE=1 (python -O: assert statements are "
+                  "compiled away, so validation written as an assert vanishes; the child asserts that mode)"),
     SubCheck("classify_near_templates", o_classify, strategy=s_scripts, budget=(12000, 400000), nontrivial=nt_classify,
              rule="templates with hash length 0..76, every push encoding (direct, PUSHDATA1/2/4), leading / trailing opcodes, witness-like "
                   "OP_n pushes, multisig with m/n opcodes inside and outside OP_1..OP_16, 0..20 keys of 32..121 bytes, counts as OP_n / pushed "
